@@ -1,5 +1,6 @@
 import Huginn.Lemmas.Http1Trim
 import Huginn.Lemmas.Http1Lines
+import Huginn.Lemmas.Http1Consts
 /-
 Helper lemmas for C05: start lines and field lines of a well-formed head go through
 `parse_request_line` / `parse_status_line` / `parse_headers` unchanged.
@@ -142,11 +143,12 @@ theorem takeWhile_all {α} (p : α → Bool) (l : List α) (h : ∀ x ∈ l, p x
   | nil => rfl
   | cons a r ih => simp [List.takeWhile_cons, h a (by simp), ih (fun x hx => h x (by simp [hx]))]
 
-theorem parseHeaders_fields (fs : List Field) (hn : fs.length ≤ HttpLists.maxHeaders)
+theorem parseHeaders_fields (fs : List Field) (hn : fs.length ≤ maxFields)
     (h : ∀ f ∈ fs, FieldWF f) (hu : ∀ f ∈ fs, KF.C05.fieldUSpace f = false) :
     ∃ info, parseHeaders (fs.map fieldLine) = .ok ((fs.zipIdx 0).map hdrOf, info) := by
   unfold parseHeaders
-  have h1 : ¬ (fs.map fieldLine).length > HttpLists.maxHeaders := by simp; exact hn
+  have h1 : ¬ (fs.map fieldLine).length > HttpLists.maxHeaders := by
+    have := maxFields_le; simp; omega
   rw [if_neg h1]
   have h2 : (fs.map fieldLine).takeWhile (fun l => !l.isEmpty) = fs.map fieldLine := by
     apply takeWhile_all
@@ -159,7 +161,8 @@ theorem parseHeaders_fields (fs : List Field) (hn : fs.length ≤ HttpLists.maxH
     intro x hx
     obtain ⟨f, hf, rfl⟩ := List.mem_map.mp hx
     have := (h f hf).2.2.2.2
-    simp; exact this
+    have := maxLine_le_header
+    simp; omega
   have h4 : HttpLists.strictParsing = false := rfl
   simp only [h3, h4, Bool.false_eq_true, if_false, Bool.false_and]
   rw [parseHeaderLines_fields fs 0 h hu]
